@@ -234,7 +234,11 @@ func StartServer(dbPath string) (*Server, error) {
 	if dbPath != "" {
 		args = append(args, dbPath)
 	}
-	cmd := exec.Command(ServerBin, args...)
+	bin := ServerBin
+	if b := os.Getenv("HX_SERVER_BIN"); b != "" {
+		bin = b
+	}
+	cmd := exec.Command(bin, args...)
 	cmd.Stdout = logf
 	cmd.Stderr = logf
 	if err := cmd.Start(); err != nil {
